@@ -5,6 +5,7 @@ import Fabio.Lemmas.C04Ring
 import Fabio.Lemmas.C04Weights
 import Fabio.Lemmas.C04Slots
 import Fabio.Lemmas.C04Pick
+import Fabio.Lemmas.C04Table
 import Mathlib.Data.List.Perm.Subperm
 /-!
 C04 — traffic is split by the configured weights: property theorems (over ℚ; the gap to float64 is bounded
@@ -440,6 +441,44 @@ theorem lookup_shortcuts (pick : Outcome (Option Nat)) :
   have h0 : n ≠ 0 := by omega
   have h1 : n ≠ 1 := by omega
   simp [h0, h1]
+
+/-! ## every route of every table
+
+The statements above are about `weigh ts`. The route commands (`route add` / `route del` / `route weight`,
+any script, through `NewTable` or `NewTableCustom`) only ever store targets that came out of `weigh`, and
+never leave an empty route behind — so they hold for every route of every table. -/
+
+theorem every_route_weights (env : Env) (defs : List RouteDef) (t : Table) (h : newTable env defs = .ok t) :
+    ∀ kv ∈ t, ∀ r ∈ kv.2,
+      r.targets ≠ [] ∧ (∀ tg ∈ r.targets, 0 ≤ tg.weight) ∧ (r.targets.map (·.weight)).sum = 1 := by
+  intro kv hkv r hr
+  obtain ⟨hne, ts, hts⟩ := newTable_ok env defs t h kv hkv r hr
+  have htsne : ts ≠ [] := by
+    intro h0; apply hne; rw [hts, h0]; rfl
+  refine ⟨hne, ?_, ?_⟩
+  · rw [hts]; exact weights_nonneg ts
+  · rw [hts]; exact weights_sum_one ts htsne
+
+theorem every_route_ring (env : Env) (defs : List RouteDef) (t : Table) (h : newTable env defs = .ok t) :
+    ∀ kv ∈ t, ∀ r ∈ kv.2, ∀ pl : List (Int × Nat), pl.Perm (entries (slotCounts r.targets)) →
+      ∃ ring, ringOf r.targets pl = .ok ring ∧ ring ≠ [] ∧ (∀ s ∈ ring, s ≠ none) ∧
+        ∀ i tg, r.targets[i]? = some tg →
+          ring.count (some i) = (if nFixed r.targets = 0 then 1 else (slotCount tg.weight).toNat) ∧
+          (0 < tg.weight → some i ∈ ring) ∧ (tg.weight = 0 → some i ∉ ring) := by
+  intro kv hkv r hr pl hperm
+  obtain ⟨hne, ts, hts⟩ := newTable_ok env defs t h kv hkv r hr
+  have htsne : ts ≠ [] := by
+    intro h0; apply hne; rw [hts, h0]; rfl
+  rw [hts] at hperm ⊢
+  obtain ⟨ring, h1, h2, h3, h4⟩ := ring_of_route ts htsne pl hperm
+  refine ⟨ring, h1, h2, h3, fun i tg hi => ?_⟩
+  have hc := h4 i tg hi
+  rw [weigh_nFixed]
+  refine ⟨hc, fun hp => ?_, fun hz => ?_⟩
+  · obtain ⟨ring', hr', hm⟩ := positive_weight_never_starved ts htsne pl hperm i tg hi hp
+    rw [h1] at hr'; cases hr'; exact hm
+  · obtain ⟨ring', hr', hm, _⟩ := zero_weight_never_picked ts htsne pl hperm i tg hi hz
+    rw [h1] at hr'; cases hr'; exact hm
 
 /-! ## the driver's fast ring fill is the model's -/
 
